@@ -74,7 +74,7 @@ Definition dispatch (fn : Z) (a : sexp) : sexp :=
            L [e_out e_db (parse_bib Capture (x ++ bad ++ y)); e_out e_db (parse_bib Capture (x ++ y));
               e_out e_db (parse_bib Capture x); e_out e_db (parse_bib NonStrict (x ++ bad ++ y));
               e_out e_db (parse_bib NonStrict x); e_out e_db (parse_bib Strict (x ++ bad ++ y))]
-  | 9%Z | 10%Z | 14%Z => e_out e_db (parse_bib Capture (d_str (d_nth a 0)))
+  | 9%Z | 10%Z | 14%Z | 15%Z => e_out e_db (parse_bib Capture (d_str (d_nth a 0)))
   | 11%Z => e_out e_low (lowlevel Capture (d_str (d_nth a 0)))
   | 12%Z => e_out e_db (parse_bib_seq Capture (d_list d_str (d_nth a 0)) db_init month_macros [])
   | 13%Z => let o := d_opts (d_nth a 0) in let t := d_str (d_nth a 1) in
